@@ -564,8 +564,11 @@ Walk(n, S) ==
                                         ELSE Al(i + 1, Bind(t, n.aliases[i][2], own[n.aliases[i][1]]))
                             tbl == Al(1, own)
                             L == Len(ld[3].blocks)
+                            (* the imported blocks may call the used template's own macros through _self *)
+                            um == OwnMacros(S.tpls[ld[2]], ld[2], EmptyScope)
                         IN IF missing THEN Fail(ld[3])
-                           ELSE [ld[3] EXCEPT !.blocks = SubSeq(@, 1, L - 1) \o <<tbl>> \o <<@[L]>>]
+                           ELSE [ld[3] EXCEPT !.blocks = SubSeq(@, 1, L - 1) \o <<tbl>> \o <<@[L]>>,
+                                              !.lmacros = [x \in (DOMAIN @) \cup (DOMAIN um) |-> IF x \in DOMAIN @ THEN @[x] ELSE um[x]]]
     [] n.k = "import" ->
          LET r == Eval(n.x, S) IN
          IF ~Ok(r[2]) THEN r[2]
